@@ -1,5 +1,4 @@
 import PGV.Props.C11
-import PGV.Props.Facts
 
 #print axioms PGV.Props.C11.C11_cache_any_interleaving
 #print axioms PGV.Props.C11.C11_call_solo_result
